@@ -125,6 +125,7 @@ def rr_history(P, rng, random_start):
     P.randint = sr
     P.RoundRobinPartitioner.set_random_start(random_start)
     lines, outs, windows = [], [], []
+    members = []
     try:
         ps = gen_parts(rng, allow_empty=(rng.random() < 0.05))
         sr.next = rng.randrange(0, 16)
@@ -134,11 +135,23 @@ def rr_history(P, rng, random_start):
             lines.append("rr-new %s %s" % (ints(ps), start)); outs.append(["ok"])
         except ValueError:
             lines.append("rr-new %s %s" % (ints(ps), start)); outs.append(["error"])
-            return lines, outs, windows
-        cur, run = ps, []
+            return lines, outs, windows, members
+        # `cur` is ONE list object handed to every call; the list changes either by replacement
+        # (new object) or IN PLACE (same object mutated by its owner between selections)
+        cur, run = list(ps), []
         for _ in range(rng.randrange(1, 7)):
-            if rng.random() < 0.6:
+            r = rng.random()
+            if r < 0.4:
                 cur = gen_parts(rng, allow_empty=(rng.random() < 0.03))
+                run = []
+            elif r < 0.7 and cur:
+                op = rng.randrange(3)
+                if op == 0:
+                    cur.append(max(cur) + rng.randrange(1, 4))
+                elif op == 1 and len(cur) > 1:
+                    cur.pop(rng.randrange(len(cur)))
+                else:
+                    cur.insert(0, min(cur) - rng.randrange(1, 4))
                 run = []
             n = len(cur)
             for _ in range(rng.choice([1, 2, n, 2 * n, 3 * n, n + 1]) or 1):
@@ -146,12 +159,13 @@ def rr_history(P, rng, random_start):
                 start = str(sr.next % max(n, 1)) if random_start else "-"
                 lines.append("rr-pick %s %s" % (ints(cur), start))
                 try:
-                    x = p.partition(None, list(cur))
+                    x = p.partition(None, cur)
                 except (StopIteration, ValueError):
                     outs.append(["error"])
-                    return lines, outs, windows
+                    return lines, outs, windows, members
                 outs.append(["int %d" % x])
                 run.append(x)
+                members.append((list(cur), x))
                 # every window of k*n consecutive picks with the list unchanged, if it is ascending
                 if n and cur == sorted(cur):
                     for k in (1, 2):
@@ -159,7 +173,7 @@ def rr_history(P, rng, random_start):
                             windows.append((list(cur), run[-k * n:]))
     finally:
         P.RoundRobinPartitioner.set_random_start(False)
-    return lines, outs, windows
+    return lines, outs, windows, members
 
 
 def rr_cases(ctx, res, n):
@@ -169,9 +183,10 @@ def rr_cases(ctx, res, n):
     try:
         for i in range(n):
             rs = ctx.rng.random() < 0.5
-            lines, outs, windows = rr_history(P, ctx.rng, rs)
+            lines, outs, windows, members = rr_history(P, ctx.rng, rs)
             mon = ["mon-rr %s %s" % (ints(ps), ints(w)) for ps, w in windows]
-            got = ctx.model("partitioner", lines + mon)
+            mon2 = ["mon-member %s %d" % (ints(ps), x) for ps, x in members]
+            got = ctx.model("partitioner", lines + mon + mon2)
             res.evaluations += 1
             res.count("rr_random_start=%s" % rs); res.count("rr_calls", len(lines) - 1); res.count("rr_windows", len(windows))
             if len(lines) > 3:
@@ -183,6 +198,9 @@ def rr_cases(ctx, res, n):
             for (ps, w), g in zip(windows, got[len(lines):]):
                 if g != ["ok"]:
                     res.monitor_failures.append({"what": "round-robin window is not fair", "scenario": {"partitions": ps, "window": w, "history": lines}, "tags": ["rr-unfair"]})
+            for (ps, x), g in zip(members, got[len(lines) + len(mon):]):
+                if g != ["ok"]:
+                    res.monitor_failures.append({"what": "round-robin selection is not a member of the supplied list", "scenario": {"partitions": ps, "selected": x, "history": lines}, "tags": ["rr-not-member"]})
             res.traces_validated += 1
     finally:
         P.randint = orig
